@@ -55,8 +55,13 @@ def run_check(pid, tier):
             broken.append({"kind": "proof", "theorem_or_module": name, "why": why,
                            "log": lean.build_log[-3000:] if "build failed" in why else ""})
     # 4. correspondence (+ regress corpus first, inside the module)
-    common.build_driver()
-    corr = mod.correspond(ctx)
+    corr = {}
+    try:
+        common.build_driver()
+    except RuntimeError as e:
+        broken.append({"kind": "model-build", "why": "the model driver does not build against the regenerated Gen/*.lean", "log": str(e)[-3000:]})
+    else:
+        corr = mod.correspond(ctx)
     for d in corr.get("disagreements", []):
         broken.append({"kind": "correspondence", "stream": d.get("stream"), "input": d.get("input"),
                        "model": d.get("model"), "impl": d.get("impl")})
